@@ -542,6 +542,8 @@ func (server *SugarDB) handleConnection(conn net.Conn) {
 
 		res, err := server.handleCommandRecover(ctx, message, &conn)
 		if err != nil && errors.Is(err, io.EOF) {
+			// QUIT: acknowledge, then close the connection.
+			_, _ = w.Write([]byte(constants.OkResponse))
 			break
 		}
 		if err != nil {
